@@ -141,6 +141,7 @@ let () =
       if String.length head > 0 && head.[0] = 'w' then begin
         (* C08: the documented layout of the Message and its content, for harness/wire_h.cpp *)
         Printf.printf "%d B %s\n" k (hex_of (spec_msg m0));
+        Printf.printf "%d FR %s\n" k (hex_of (takeN (n_of_int 8) (frame enc_default (spec_msg m0))));
         Printf.printf "%d CCT %s\n" k (cct (strip_msg m0));
         (match unflatten (spec_msg m0) with
          | Ok u -> if head <> "wn" && u <> rt m0 then Printf.printf "%d ORACLE FAIL model: unflatten (spec_msg m) <> rt m\n" k
